@@ -418,3 +418,118 @@ def mon_c03_adaptive(spec, ex, p):
             'C03.nontermination', 'after-k1-trigger',
             f'{ex.error[2]}', spec))
     return out
+
+
+# ----------------------------------------------------------------------
+# Explorer B on poll answers: explicit-state search over ALL answer
+# sequences (not deviation-bounded) with scheduler-state merging
+
+class CapturingOracle(Oracle):
+    """Replays a prefix, answers the default afterwards, and records the
+    scheduler state at the first choice point after the prefix."""
+
+    def __init__(self, prefix, menu_filter=None):
+        super().__init__(prefix, menu_filter)
+        self.cut_state = None
+        self.cut_calls = None
+
+    def choose(self, key, menu, probe=None):
+        if len(self.points) == len(self.prefix) and self.cut_state is None:
+            m = list(menu)
+            if self.menu_filter is not None:
+                m = self.menu_filter(key, m, probe) or m[:1]
+            eng = probes.ENGINE
+            t = probes.now()
+            sig = probes.front_signature(eng, t) if eng is not None else None
+            self.cut_state = (key[0], key[1], sig, len(m), t)
+        return super().choose(key, menu, probe)
+
+
+def bfs_answers(n, script, restricted, fast, max_points, acc, monitors,
+                max_states=None):
+    """Breadth-first search over answer prefixes (explorer B on the poll
+    seam).  Every prefix is one transition: the real engine is run on it
+    (default answers after the prefix) and the whole execution is judged.
+    The state reached by a prefix is the scheduler state at the first
+    choice point after it: (call index, time left in the call, who is asked
+    what, the front relative to the clock).  Only prefixes that reach a NEW
+    state are extended (by every menu entry)."""
+    spec = a_world(n, script, restricted, fast)
+    flt = k1_filter if restricted else None
+    windows = sched.call_windows(script, 0)
+    seen = set()
+    frontier = [()]
+    n_exec = 0
+    depth = 0
+    while frontier and depth <= max_points:
+        nxt = []
+        for prefix in frontier:
+            oracle = CapturingOracle(prefix, menu_filter=flt)
+            ex = worlds.execute(spec, oracle=oracle,
+                                guard_factory=sched.lasso_guard)
+            _judge_bfs(spec, tuple(oracle.choices), ex, acc, monitors)
+            n_exec += 1
+            cut = oracle.cut_state
+            if cut is None:
+                continue          # the run ended before asking again
+            t = cut[4]
+            call = next((i for i, (s0, e0, f0) in enumerate(windows)
+                         if s0 <= t < e0 or (t == e0 and i == len(
+                             windows) - 1)), len(windows) - 1)
+            # a choice at a call boundary belongs to the later call
+            for i, (s0, e0, f0) in enumerate(windows):
+                if t == s0:
+                    call = i
+            state = (call, round(windows[call][1] - t, 9)) + cut[:4]
+            if prefix:
+                acc.transition(prefix[:-1], state, prefix[-1])
+            if state in seen:
+                continue
+            seen.add(state)
+            acc.state(state)
+            if max_states is not None and len(seen) >= max_states:
+                acc.notes.add(f'state cap {max_states} hit in bfs_answers')
+                return len(seen), n_exec
+            for c in range(cut[3]):
+                nxt.append(prefix + (c,))
+        frontier = nxt
+        depth += 1
+    acc.maximum('bfs_answer_depth', depth - 1)
+    if frontier:
+        acc.notes.add('bfs_answers stopped at the depth bound with a '
+                      'non-empty frontier')
+    else:
+        acc.counters['bfs_state_spaces_explored_completely'] += 1
+    return len(seen), n_exec
+
+
+def probes_now(ex):
+    for ev in reversed(ex.trace):
+        if ev[0] == 'clock':
+            return ev[2]
+    return 0
+
+
+def _judge_bfs(spec, choices, ex, acc, monitors):
+    p = sched.Parsed(ex)
+    case = dict(spec)
+    case['choices'] = list(choices)
+    viols = []
+    if 'c01' in monitors:
+        viols += mon_c01_adaptive(case, ex, p)
+    if 'c02' in monitors:
+        viols += mon_c02_adaptive(case, ex, p)
+    if 'c03' in monitors:
+        viols += mon_c03_adaptive(case, ex, p)
+    acc.case(key=('BFS', spec.get('n'), spec['script'], tuple(choices)),
+             outcome='BFS:' + ('err' if ex.error else 'ok'))
+    for v in viols:
+        acc.violate(v)
+
+
+def run_bfs_job(job, acc, monitors):
+    _, n, script, restricted, fast, max_points = job
+    states, n_exec = bfs_answers(n, script, restricted, fast, max_points,
+                                 acc, monitors)
+    acc.counters['BFS_states'] += states
+    acc.counters['BFS_executions'] += n_exec
